@@ -30,6 +30,7 @@ type sSynSpec struct {
 	nDocs int
 	pairs map[string]map[string][]sSynPair
 	ids   []string
+	dual  bool // the ordinary document has a text field (term "k", doc values) named like thesaurus t1
 }
 
 func (s *sSynSpec) add(th, term, syn string, doc uint64) {
@@ -47,6 +48,13 @@ func vGenSynBatch(prefix string, nSyn int, emptyTerm bool) ([]index.Document, *s
 	docs = append(docs, &vDoc{id: oid, fields: []index.Field{vIDField(oid),
 		vTextField("body", 2, []vTerm{{term: "w", freq: 1}, {term: "x", freq: 1}}, index.IndexField, nil, nil, 't')}})
 	sp.ids = append(sp.ids, oid)
+	if vParam("dual", 0) == 1 && vBool(prefix+"dual") {
+		// one field name used both as an ordinary text field (with doc values) and as a thesaurus: the field has
+		// an inverted-index section and a synonym section
+		od := docs[0].(*vDoc)
+		od.fields = append(od.fields, vTextField("t1", 1, []vTerm{{term: "k", freq: 1}}, index.IndexField|index.DocValues, nil, nil, 't'))
+		sp.dual = true
+	}
 	for d := 0; d < nSyn; d++ {
 		id := fmt.Sprint(prefix, "s", d)
 		th := vThesauri[vChoice(fmt.Sprint(prefix, "th", d), len(vThesauri))]
@@ -181,7 +189,22 @@ func sCheckThesauri(seg segment.Segment, sp *sSynSpec, except *roaring.Bitmap, e
 		// a thesaurus name contributes nothing to the ordinary dictionaries
 		d, err := seg.Dictionary(th)
 		vAssert(err == nil && d != nil, tag+"thes-dict")
-		de, err := d.AutomatonIterator(nil, nil, nil).Next()
+		dit := d.AutomatonIterator(nil, nil, nil)
+		de, err := dit.Next()
+		if sp.dual && th == "t1" {
+			// ... but an ordinary field of the same name keeps its own dictionary, postings and doc values
+			vAssert(err == nil && de != nil && de.Term == "k", tag+"dual-dict")
+			de, err = dit.Next()
+			var seen []string
+			_, err2 := seg.(segment.DocValueVisitable).VisitDocValues(0, []string{"t1"}, func(f string, term []byte) { seen = append(seen, f+"="+string(term)) }, nil)
+			vAssert(err2 == nil && len(seen) == 1 && seen[0] == "t1=k", tag+"dual-docvalues")
+			fl, err3 := seg.(segment.DocValueVisitable).VisitableDocValueFields()
+			has := false
+			for _, f := range fl {
+				has = has || f == "t1"
+			}
+			vAssert(err3 == nil && has, tag+"dual-dv-fields")
+		}
 		vAssert(err == nil && de == nil, tag+"thes-dict-empty")
 	}
 	// the ordinary field is unaffected
